@@ -4,6 +4,14 @@ import json, os
 HERE = os.path.dirname(os.path.dirname(os.path.abspath(__file__)))
 
 CLAIMED = {
+ 'C06': ('clang AST sibling cross-checks (three switches), struct-field coverage of the writer, name-provenance lint with reviewed renames, compiler-evaluated sizeof comparison, de-duplication key coverage per type tag, 3-valued decoding tables of girparser.c',
+         'Decides structural necessary conditions for every GIR: size, full-size and build switches agree per node kind and every written string is sized; all ~285 fields of the 26 blob/header structs are assigned (or reviewed: padding zeroed by g_malloc0, nested blobs, overlays); 91 blob<-node assignments are like-named or reviewed renames; header sizes, validator and CHECK_SIZE literals equal clang\'s sizeof; the type de-duplication key depends on every node field the type blob stores (per tag); boolean attributes decode "1"->set "0"->clear with consistent defaults and the zero-terminated default is !(length||fixed-size); the index buffer is fully cleared; the validator accepts class prerequisites.',
+         'NOT decided (not applicable): the bytes of a concrete typelib, offsets inside the file, 16-bit limits, g_typelib_validate as a whole. Trusted: clang-14 record layout (x86-64) and constant evaluation; stub GLib headers; tables RENAMES/UNWRITTEN_OK in gilint/props/c06.py.',
+         '§4 C06'),
+ 'C15': ('three-way static comparison: symbolic writer table (Python) x 3-valued decoding tables of girparser.c (clang AST) x RELAX-NG schema reader',
+         'Decides for every namespace the producer/consumer agreement: each element the scanner can emit is handled by girparser.c; embedded callbacks only where start_function accepts them (union/interface: known finding F6); for every boolean attribute the writer\'s emission rule composed with the C decoding is the identity on the flag (exhaustive over absent/0/1); zero-terminated is explicit exactly when the C default would differ; every enumerated value written is recognised by the C strcmp chain; attributes with a typelib bit are fetched; writer vocabulary and nesting lie within docs/gir-1.2.rnc (reviewed exceptions listed).',
+         'Not decided: dependency resolution, warnings on concrete files, the parser state machine as a whole, introspectable=0 propagation (C05). Trusted: clang-14, stub GLib headers, the rnc subset reader.',
+         '§4 C15'),
  'C09': ('clang AST: writer section order extracted from the layout switch, accessor offsets normalised to polynomials and compared with the derived prefix sums; name/record-type agreement of count accessors; loop-condition and comparator rules for the attribute table',
          'Decides for every typelib the structural necessary conditions: all 23 offset computations of the object/interface/struct/union/enum accessors equal base + preceding sections + n*element size as laid out by the compiler (interface padding and embedded field callbacks included, exhaustive over the accessors); field walkers step over embedded callbacks and plain products are used only where girparser.c cannot embed a callback; count accessors return the like-named member of the right blob; attribute lookup uses the sort key of the writer and rewinds with >=; g-ir-generate writes closure/destroy for every index >= 0.',
          'Not decided (not applicable): results on concrete typelibs, type decoding, the rest of g-ir-generate. Trusted: clang-14, stub GLib headers.',
